@@ -110,8 +110,15 @@ def parsePtl (maxSubLayersMinus1 : Nat) : PM Unit := do
     skip2 (8 - maxSubLayersMinus1)
     skipSub flags
 
-/-- `hevc.ParseVps(vps, ctx)`; every reader error is mapped to ErrHevc (still an error) -/
-def parseVps (vps : Bytes) (ctx : Context) : GoM (Option Unit × Context) :=
+/-- `defer recoverBitReaderPanic(&err)` (the `fix:` commit of branch w-C05): a run-time failure inside the bit
+    reader is returned as an error. No caller looks at the context after an error; the model hands back the
+    context it was given. -/
+def recoverErr (ctx : Context) : GoM (Option Unit × Context) → GoM (Option Unit × Context)
+  | .error (.panic _) => .ok (none, ctx)
+  | r => r
+
+/-- `hevc.ParseVps(vps, ctx)` without the `defer`; every reader error is mapped to ErrHevc (still an error) -/
+def parseVpsRaw (vps : Bytes) (ctx : Context) : GoM (Option Unit × Context) :=
   if vps.length < 2 then .ok (none, ctx) else
   let p : PM Unit := do
     let _ ← rd (readBits 12)
@@ -127,8 +134,11 @@ def skipUe : Nat → PM Unit
   | 0 => pure ()
   | n+1 => do let _ ← rd readUe; skipUe n
 
-/-- `hevc.ParseSps(sps, ctx)` -/
-def parseSps (sps : Bytes) (ctx : Context) : GoM (Option Unit × Context) :=
+/-- `hevc.ParseVps(vps, ctx)` -/
+def parseVps (vps : Bytes) (ctx : Context) : GoM (Option Unit × Context) := recoverErr ctx (parseVpsRaw vps ctx)
+
+/-- `hevc.ParseSps(sps, ctx)` without the `defer` -/
+def parseSpsRaw (sps : Bytes) (ctx : Context) : GoM (Option Unit × Context) :=
   if sps.length < 2 then .ok (none, ctx) else
   let p : PM Unit := do
     let _ ← rd (readBits 4)                                -- sps_video_parameter_set_id
@@ -167,5 +177,8 @@ def parseSps (sps : Bytes) (ctx : Context) : GoM (Option Unit × Context) :=
   match p { ctx := ctx, br := newBitReader (nal2rbsp (sps.drop 2)) } with
   | .ok (r, st) => .ok (r, st.ctx)
   | .error e => .error e
+
+/-- `hevc.ParseSps(sps, ctx)` -/
+def parseSps (sps : Bytes) (ctx : Context) : GoM (Option Unit × Context) := recoverErr ctx (parseSpsRaw sps ctx)
 
 end Lal.HevcPs
